@@ -267,6 +267,43 @@ def job_glue(job):
     return res
 
 
+def confirm_glue(chk, f, native):
+    """replay a glue (argument wiring / reported fields) counterexample: native builds over a few option combinations,
+    each decoded with the integer reference decoder and compared with the reported fields"""
+    from checks import c01
+    trials = []
+    for inp in (b'HELLO WORLD', b'0123456789', b'hello, world', bytes(range(1, 60))):
+        for ecl in (None, 0, 3):
+            for ver in (None, 6):
+                for mask in (None, 5):
+                    trials.append((inp, ecl, ver, mask))
+    for (inp, ecl, ver, mask) in trials:
+        mode = 0 if all(0x30 <= c <= 0x39 for c in inp) else (1 if all(chr(c) in iso.ALNUM for c in inp) else 2)
+        l = 2 if ecl is None else ecl
+        auto = iso.min_version(iso.LEVELS[l], iso.MODES[mode], len(inp))
+        want = max(auto, (ver + 1) if ver is not None else 0)
+        o2s = lambda x: '-' if x is None else str(x)
+        req = 'build %s %s %s - %s' % (OV.hexs(inp), o2s(ecl), o2s(ver), o2s(mask))
+        ans = native.ask(req)
+        bad = None
+        if ans.startswith('OK'):
+            fl = OV.parse_fields(ans)
+            if fl.get('mask', '-') == '-':
+                bad = 'the returned QR code reports no mask (mask field is None) although a mask was applied'
+            elif mask is not None and fl['mask'] != str(mask):
+                bad = 'forced mask %d but mask %s reported' % (mask, fl['mask'])
+            elif fl.get('ecl') != str(l) or fl.get('mode') != str(mode):
+                bad = 'reported level/mode %s/%s, in effect %d/%d' % (fl.get('ecl'), fl.get('mode'), l, mode)
+        if bad is None:
+            bad = c01.native_decode_mismatch(native, req, list(inp), mode, l, want)
+        if bad:
+            f['confirmed'] = True
+            f['what'] = '%s  [%s]; symbolic cause: %s' % (bad, req, f.get('obligation'))
+            f['replay'] = {'request': req}
+            return f
+    return f
+
+
 GATE_INPUTS = [b'', b'7', b'0123456789', b'HELLO WORLD', b'hello', b'\x00\xff', b'A' * 40]
 
 
@@ -279,10 +316,12 @@ def run(chk, fields=False):
     for r in res:
         fs = r.get('failures', [])
         for f in fs:
+            if native is None:
+                native = chk.native()
             if 'input' in f:
-                if native is None:
-                    native = chk.native()
                 confirm_gate(chk, f, native)
+            if not f.get('confirmed'):
+                confirm_glue(chk, f, native)
             f['key'] = '%s/%s' % (chk.pid, f['key'])
         chk.absorb(r)
     if native is not None:
